@@ -97,6 +97,9 @@ template <class X> struct ParseMon {
         Comp m = split(s); bool mabs; StrVec msegs; path_to_segments(m.path, m.hasAuth, &mabs, &msegs);
         Str where = fmt("parse/%s/%s", X::tag(), ep);
         if (!v.malformed.empty()) { c.violation("C02", where + "/malformed", fmt("input=\"%s\": %s", esc(s).c_str(), v.malformed.c_str())); return; }
+        // C02 verdicts (first one wins); the C04 clause below is judged on the text alone, whatever C02 found: "converting the
+        // parsed URI back to text yields the input" is violated end to end also when the parser stored the wrong thing
+        [&]() {
         Str d = comp_diff(v.c, m);
         if (!d.empty()) { c.violation("C02", where + "/component/" + d, fmt("input=\"%s\" library=%s model=%s", esc(s).c_str(), v.c.describe().c_str(), m.describe().c_str())); return; }
         if (v.abs != mabs) { c.violation("C02", where + "/absolutePath", fmt("input=\"%s\" flag=%d expected=%d", esc(s).c_str(), (int)v.abs, (int)mabs)); return; }
@@ -113,6 +116,7 @@ template <class X> struct ParseMon {
         chk("scheme", v.oScheme, e.scheme, m.scheme.size()); chk("userInfo", v.oUser, e.user, m.user.size()); chk("host", v.oHost, e.host, m.host.size());
         chk("port", v.oPort, e.port, m.port.size()); chk("query", v.oQuery, e.query, m.query.size()); chk("fragment", v.oFrag, e.frag, m.frag.size());
         for (size_t i = 0; i < msegs.size() && i < v.oSegs.size(); i++) chk("segment", v.oSegs[i], e.segs[i], msegs[i].size());
+        }();
         // C04: recomposition
         c.attribute("C04");
         Str out; bool lossy = false; int rc = to_string<X>(u, &out, &lossy);
